@@ -155,14 +155,12 @@ def wfPlain (c : Byte) : Bool := 32 ≤ c && c < 127 && c != 92 && c != 34 && c 
 /-- `d` = current depth of comment nesting -/
 def wfAux : Nat → Bytes → Bool
   | _, [] => false
-  | d, c :: r =>
-    if c = 10 then
-      (match r with
-       | [] => d == 0
-       | n :: _ => (n == 32 || n == 9) && wfAux d r)
-    else if c = 40 then wfAux (d + 1) r
-    else if c = 41 then d != 0 && wfAux (d - 1) r
-    else wfPlain c && wfAux d r
+  | d, [c] => c == 10 && d == 0
+  | d, c :: n :: r =>
+    if c = 10 then (n == 32 || n == 9) && wfAux d (n :: r)
+    else if c = 40 then wfAux (d + 1) (n :: r)
+    else if c = 41 then d != 0 && wfAux (d - 1) (n :: r)
+    else wfPlain c && wfAux d (n :: r)
 
 def wf822 (field : Bytes) : Bool := wfAux 0 field
 
